@@ -1,9 +1,401 @@
-"""C18 obligations (overlay clock) - filled in below."""
+"""C18 obligations: OverlayClock (engine M). State = (roclock.now, last_sync, shift, ppm)."""
+import os, re, struct
+from .engine import Ctx, Exec, Int, Fx, Bool, F64, Struct, Tup, Opt, Ref, UNIT, Unsupported, in_range, lit
+from .summaries import SUMMARIES
+from . import obligations as OB
+
+OVERLAY = "overlay_clock.rs"
+NS = 1_000_000_000
+TWO32 = 1 << 32
+T_LO = 0
+T_HI = (1 << 48) * NS * TWO32            # underlying clock anywhere in the PTP range
+SHIFT = (1 << 63) * TWO32                # |shift| < 2^63 ns
+OFF = 10 * NS * TWO32                    # step offsets within +-10 s
+ELAPSED = 10_000 * NS * TWO32            # <= 10^4 s between adjustments
 
 
+def mk_clock(now, last, shift, ppm):
+    return Struct("OverlayClock", [Struct("Clk", [OB.mk_time(now)]), OB.mk_time(last), OB.mk_dur(shift), F64(ppm)])
+
+
+def state_ranges(ctx):
+    return ["(<= 0 last)", "(<= last now)", "(< now %d)" % T_HI, "(<= (- now last) %d)" % ELAPSED,
+            "(< (- %d) shift)" % SHIFT, "(< shift %d)" % SHIFT, "(<= (- 500.0) ppm)", "(<= ppm 500.0)"]
+
+
+def declare_state(ctx):
+    for v in ("now", "last", "shift"):
+        ctx.var(v)
+    ctx.var("ppm", "Real")
+
+
+def run_method(S, ctx, ex, name, clock, extra):
+    f = S.f(OVERLAY, name)
+    st = OB.State() if hasattr(OB, "State") else None
+    from .engine import State
+    st = State()
+    st.store[("in", 0)] = clock
+    args = [Ref(("in", 0))] + extra
+    outs = ex.run(f, args, st)
+    return outs
+
+
+def final_clock(o):
+    return o.store[("in", 0)]
+
+
+def o_set_frequency_continuous(S, qdir):
+    oid = "c18_set_frequency_continuous"
+    ctx, ex = S.new()
+    declare_state(ctx)
+    ctx.var("ppm2", "Real")
+    clk = mk_clock("now", "last", "shift", "ppm")
+    before = run_method(S, ctx, ex, "time_from_underlying", clk, [OB.mk_time("now")])
+    outs = run_method(S, ctx, ex, "set_frequency", clk, [F64("ppm2")])
+    disj, reach = [], []
+    rng = state_ranges(ctx) + ["(<= (- 500.0) ppm2)", "(<= ppm2 500.0)", "(> (+ last shift) %d)" % (10 * NS * TWO32)]
+    for b in before:
+        if b.kind != "ret":
+            continue
+        for o in outs:
+            pc = OB.AND(b.pc + o.pc)
+            if o.kind != "ret":
+                disj.append(pc)
+                continue
+            c2 = final_clock(o)
+            after = run_method(S, ctx, ex, "time_from_underlying", c2, [OB.mk_time("now")])
+            ret = OB.bits(o.value)   # Result::Ok(Time)
+            for a in after:
+                pc2 = OB.AND(b.pc + o.pc + a.pc)
+                if a.kind != "ret":
+                    disj.append(pc2)
+                else:
+                    disj.append(OB.AND([pc2, "(not (and (= %s %s) (= %s %s)))" % (ret, OB.bits(b.value), OB.bits(a.value), ret)]))
+                    reach.append(pc2)
+    # the reading before must itself be defined (no overflow in time_from_underlying) for states in range
+    for b in before:
+        if b.kind != "ret":
+            disj.append(OB.AND(b.pc))
+    r1 = OB.check(qdir, oid + ".goal", OB.script(ctx, rng + [OB.OR(disj)]), "unsat", 180, produce_model=True, get_values=["now", "last", "shift", "ppm", "ppm2"])
+    r2 = OB.check(qdir, oid + ".reach", OB.script(ctx, rng + [OB.OR(reach)]), "sat", 180)
+    r1["replayer"] = lambda m: replay_setfreq(S, m)
+    return [r1, r2], ctx
+
+
+def o_step_exact(S, qdir):
+    oid = "c18_step_clock_exact"
+    ctx, ex = S.new()
+    declare_state(ctx)
+    ctx.var("off")
+    clk = mk_clock("now", "last", "shift", "ppm")
+    before = run_method(S, ctx, ex, "time_from_underlying", clk, [OB.mk_time("now")])
+    outs = run_method(S, ctx, ex, "step_clock", clk, [OB.mk_dur("off")])
+    rng = state_ranges(ctx) + ["(< (- %d) off)" % OFF, "(< off %d)" % OFF, "(> (+ now shift) %d)" % (20 * NS * TWO32)]
+    disj, reach = [], []
+    for b in before:
+        if b.kind != "ret":
+            disj.append(OB.AND(b.pc))
+            continue
+        for o in outs:
+            pc = OB.AND(b.pc + o.pc)
+            if o.kind != "ret":
+                disj.append(pc)
+                continue
+            c2 = final_clock(o)
+            after = run_method(S, ctx, ex, "time_from_underlying", c2, [OB.mk_time("now")])
+            ret = OB.bits(o.value)
+            for a in after:
+                pc2 = OB.AND(b.pc + o.pc + a.pc)
+                if a.kind != "ret":
+                    disj.append(pc2)
+                else:
+                    disj.append(OB.AND([pc2, "(not (and (= (- %s %s) off) (= %s %s)))" % (OB.bits(a.value), OB.bits(b.value), ret, OB.bits(a.value))]))
+                    reach.append(pc2)
+    r1 = OB.check(qdir, oid + ".goal", OB.script(ctx, rng + [OB.OR(disj)]), "unsat", 180, produce_model=True, get_values=["now", "last", "shift", "ppm", "off"])
+    r2 = OB.check(qdir, oid + ".reach", OB.script(ctx, rng + [OB.OR(reach)]), "sat", 180)
+    r1["replayer"] = lambda m: replay_step(S, m)
+    return [r1, r2], ctx
+
+
+def o_rate_unity(S, qdir):
+    """with ppm == 0 the overlay advances exactly like the underlying clock"""
+    oid = "c18_rate_exact_at_zero_ppm"
+    ctx, ex = S.new()
+    declare_state(ctx)
+    ctx.var("t1")
+    ctx.var("t2")
+    clk = mk_clock("now", "last", "shift", "ppm")
+    r1s = run_method(S, ctx, ex, "time_from_underlying", clk, [OB.mk_time("t1")])
+    r2s = run_method(S, ctx, ex, "time_from_underlying", clk, [OB.mk_time("t2")])
+    rng = state_ranges(ctx) + ["(= ppm 0.0)", "(<= last t1)", "(<= t1 t2)", "(<= (- t2 last) %d)" % ELAPSED, "(> (+ last shift) 0)"]
+    disj, reach = [], []
+    for a in r1s:
+        for b in r2s:
+            pc = OB.AND(a.pc + b.pc)
+            if a.kind != "ret" or b.kind != "ret":
+                disj.append(pc)
+            else:
+                disj.append(OB.AND([pc, "(not (= (- %s %s) (- t2 t1)))" % (OB.bits(b.value), OB.bits(a.value))]))
+                reach.append(pc)
+    q1 = OB.check(qdir, oid + ".goal", OB.script(ctx, rng + [OB.OR(disj)]), "unsat", 180, produce_model=True, get_values=["now", "last", "shift", "t1", "t2"])
+    q2 = OB.check(qdir, oid + ".reach", OB.script(ctx, rng + [OB.OR(reach)]), "sat", 180)
+    return [q1, q2], ctx
+
+
+def o_rate_bound(S, qdir):
+    """between adjustments: reading(t2) - reading(t1) = (t2 - t1) + corr(t2) - corr(t1) where each corr is
+    elapsed * ppm / 10^6 up to fixed-point rounding: |corr - elapsed*ppm/10^6| <= 2 units (2^-32 ns) + the
+    f64->fixed conversion error of ppm (<= 2^-33 relative to one unit per 2^32 elapsed units)"""
+    oid = "c18_rate_within_rounding"
+    ctx, ex = S.new()
+    declare_state(ctx)
+    ctx.var("t1")
+    clk = mk_clock("now", "last", "shift", "ppm")
+    r1s = run_method(S, ctx, ex, "time_from_underlying", clk, [OB.mk_time("t1")])
+    rng = state_ranges(ctx) + ["(<= last t1)", "(<= (- t1 last) %d)" % ELAPSED, "(> (+ last shift) %d)" % (10 * NS * TWO32)]
+    disj, reach = [], []
+    for a in r1s:
+        pc = OB.AND(a.pc)
+        if a.kind != "ret":
+            disj.append(pc)
+        else:
+            # ideal = t1 + shift + (t1-last) * ppm / 1e6  (real arithmetic);  |reading - ideal| <= 2 + (t1-last)/2^33/1e6 + 1
+            ideal = "(+ (to_real (+ t1 shift)) (/ (* (to_real (- t1 last)) ppm) 1000000.0))"
+            err = "(- (to_real %s) %s)" % (OB.bits(a.value), ideal)
+            bound = "(+ 3.0 (/ (to_real (- t1 last)) 8589934592000000.0))"
+            disj.append(OB.AND([pc, "(not (and (<= (- %s) %s) (<= %s %s)))" % (bound, err, err, bound)]))
+            reach.append(pc)
+    q1 = OB.check(qdir, oid + ".goal", OB.script(ctx, rng + [OB.OR(disj)]), "unsat", 240, produce_model=True, get_values=["now", "last", "shift", "ppm", "t1"])
+    q2 = OB.check(qdir, oid + ".reach", OB.script(ctx, rng + [OB.OR(reach)]), "sat", 240)
+    return [q1, q2], ctx
+
+
+def o_now(S, qdir):
+    oid = "c18_now_is_reading_of_underlying"
+    ctx, ex = S.new()
+    declare_state(ctx)
+    clk = mk_clock("now", "last", "shift", "ppm")
+    a_s = run_method(S, ctx, ex, "now", clk, [])
+    b_s = run_method(S, ctx, ex, "time_from_underlying", clk, [OB.mk_time("now")])
+    rng = state_ranges(ctx) + ["(> (+ last shift) %d)" % (10 * NS * TWO32)]
+    disj, reach = [], []
+    for a in a_s:
+        for b in b_s:
+            pc = OB.AND(a.pc + b.pc)
+            if a.kind == "ret" and b.kind == "ret":
+                disj.append(OB.AND([pc, "(not (= %s %s))" % (OB.bits(a.value), OB.bits(b.value))]))
+                reach.append(pc)
+            elif a.kind != b.kind:
+                disj.append(pc)
+    q1 = OB.check(qdir, oid + ".goal", OB.script(ctx, rng + [OB.OR(disj)]), "unsat", 180, produce_model=True, get_values=["now", "last", "shift", "ppm"])
+    q2 = OB.check(qdir, oid + ".reach", OB.script(ctx, rng + [OB.OR(reach)]), "sat", 180)
+    return [q1, q2], ctx
+
+
+# ------------------------------------------------------------------------------------------ native replay
+def f64_bits(x):
+    return struct.unpack("<Q", struct.pack("<d", float(x)))[0]
+
+
+def parse_real(model, name):
+    txt = model.replace("\n", " ")
+    i = txt.find("(" + name + " ")
+    if i < 0:
+        return None
+    j = i + len(name) + 2
+    # balanced s-expression or atom starting at j
+    while txt[j] == " ":
+        j += 1
+    if txt[j] == "(":
+        depth, k = 0, j
+        while True:
+            if txt[k] == "(":
+                depth += 1
+            elif txt[k] == ")":
+                depth -= 1
+                if depth == 0:
+                    break
+            k += 1
+        t = txt[j:k + 1]
+    else:
+        k = j
+        while txt[k] not in " )":
+            k += 1
+        t = txt[j:k]
+    from fractions import Fraction
+
+    def ev(s):
+        s = s.strip()
+        if s.startswith("("):
+            toks = re.findall(r"\((?:[^()]|\([^()]*\))*\)|[^\s()]+", s[1:-1])
+            op, args = toks[0], [ev(x) for x in toks[1:]]
+            if op == "-":
+                return -args[0] if len(args) == 1 else args[0] - args[1]
+            if op == "/":
+                return args[0] / args[1]
+            if op == "+":
+                return sum(args)
+            if op == "*":
+                return args[0] * args[1]
+            raise ValueError(op)
+        return Fraction(s)
+    try:
+        return float(ev(t))
+    except Exception:
+        return None
+
+
+def replay_step(S, model):
+    vals = OB.model_values(model, ["now", "last", "shift", "off"])
+    ppm = parse_real(model, "ppm")
+    if vals is None or ppm is None:
+        return None, "model not parsed"
+    pb = f64_bits(ppm)
+    base = "%d %d %d %d" % (vals["now"], vals["last"], vals["shift"], pb)
+    out = OB.native_eval(S.native, ["ov_tfu %s %d" % (base, vals["now"]), "ov_step %s %d" % (base, vals["off"])])
+    if "PANIC" in out:
+        return True, "native panic: %s" % out
+    before = int(out[0])
+    ret, nl, ns = [int(x) for x in out[1].split()]
+    after = OB.native_eval(S.native, ["ov_tfu %d %d %d %d %d" % (vals["now"], nl, ns, pb, vals["now"])])[0]
+    if after == "PANIC":
+        return True, "native panic after step"
+    jump = int(after) - before
+    ok = jump == vals["off"] and ret == int(after)
+    return (not ok), "native: reading before=%d after=%d jump=%d requested=%d returned=%d (ppm=%r)" % (before, int(after), jump, vals["off"], ret, ppm)
+
+
+def replay_setfreq(S, model):
+    vals = OB.model_values(model, ["now", "last", "shift"])
+    ppm, ppm2 = parse_real(model, "ppm"), parse_real(model, "ppm2")
+    if vals is None or ppm is None or ppm2 is None:
+        return None, "model not parsed"
+    base = "%d %d %d %d" % (vals["now"], vals["last"], vals["shift"], f64_bits(ppm))
+    out = OB.native_eval(S.native, ["ov_tfu %s %d" % (base, vals["now"]), "ov_setfreq %s %d" % (base, f64_bits(ppm2))])
+    if "PANIC" in out:
+        return True, "native panic: %s" % out
+    before = int(out[0])
+    ret, nl, ns = [int(x) for x in out[1].split()]
+    after = OB.native_eval(S.native, ["ov_tfu %d %d %d %d %d" % (vals["now"], nl, ns, f64_bits(ppm2), vals["now"])])[0]
+    ok = after != "PANIC" and ret == before and int(after) == ret
+    return (not ok), "native: before=%d returned=%d after=%s" % (before, ret, after)
+
+
+# ------------------------------------------------------------------------------------------ registration
 def build():
-    return []
+    O = []
+    mk = OB.Obl
+    O.append(mk("c18_now_is_reading_of_underlying", ["C18"], "quick",
+                "OverlayClock::now() == time_from_underlying(underlying.now()) for every state in range",
+                o_now, ["OverlayClock::now", "OverlayClock::time_from_underlying"]))
+    O.append(mk("c18_set_frequency_continuous", ["C18"], "quick",
+                "for every state (underlying time anywhere in the PTP range, elapsed <= 10^4 s, |shift| < 2^63 ns, ppm in [-500, 500]) and every new ppm in [-500, 500]: "
+                "the time set_frequency returns == the reading just before == the reading just after, at the same underlying instant",
+                o_set_frequency_continuous, ["OverlayClock::set_frequency", "OverlayClock::time_from_underlying", "Mul<f64> for Duration", "Div<i32> for Duration"],
+                ["f64 ppm is abstracted by its real value; the f64 -> I96F32 conversion is modelled as round-to-nearest within 1/2 ulp of the fixed format"]))
+    O.append(mk("c18_step_clock_exact", ["C18"], "quick",
+                "for every state and every offset within +-10 s: reading just after step_clock(offset) - reading just before == offset exactly, and the returned time is the reading after",
+                o_step_exact, ["OverlayClock::step_clock", "OverlayClock::time_from_underlying"],
+                ["reading at least 20 s above zero (so a -10 s step cannot underflow)"]))
+    O.append(mk("c18_rate_exact_at_zero_ppm", ["C18"], "quick",
+                "with ppm == 0: reading(t2) - reading(t1) == t2 - t1 exactly for last_sync <= t1 <= t2 within 10^4 s",
+                o_rate_unity, ["OverlayClock::time_from_underlying"]))
+    O.append(mk("c18_rate_within_rounding", ["C18"], "thorough",
+                "between adjustments reading(t) == t + shift + (t - last_sync) * ppm / 10^6 up to 3 units of 2^-32 ns plus the ppm conversion error (2^-33 per unit of elapsed/10^6)",
+                o_rate_bound, ["OverlayClock::time_from_underlying", "Mul<f64> for Duration", "Div<i32> for Duration"],
+                ["nonlinear (elapsed x ppm): if either solver answers unknown/timeout the obligation is reported undischarged"], role="best_effort"))
+    return O
+
+
+def lattice():
+    pp = [0.0, 1.0, -1.0, 12.5, -500.0, 500.0, 0.001, 123.456]
+    cases = []
+    nowv = [1700000000 * NS * TWO32 + 0x12345678, 5 * NS * TWO32, (1 << 47) * NS * TWO32]
+    for now in nowv:
+        for el in (0, 1, NS * TWO32, 9999 * NS * TWO32 + 77):
+            last = now - el
+            if last < 0:
+                continue
+            for shift in (0, 37 * NS * TWO32 + 5, -(2 * NS * TWO32) - 9):
+                for p in pp[:6]:
+                    pb = f64_bits(p)
+                    base = [now, last, shift, pb]
+                    cases.append(("ov_tfu", base + [now]))
+                    cases.append(("ov_setfreq", base + [f64_bits(-p / 2 + 1.0)]))
+                    cases.append(("ov_step", base + [3 * NS * TWO32 + 1]))
+                    cases.append(("ov_step", base + [-(NS * TWO32) - 3]))
+    return cases
 
 
 def validate(S, native, qdir, log):
-    return 0, []
+    """differential validation of the overlay encoding: concrete states through native code and encoding.
+    The encoding abstracts f64 by reals, so results may differ by the stated rounding slack; exact equality is
+    required whenever ppm == 0 or elapsed == 0, and |difference| <= 4 units otherwise."""
+    cases = lattice()
+    nat = OB.native_eval(native, ["%s %s" % (op, " ".join(str(a) for a in args)) for op, args in cases])
+    mism = []
+    n = 0
+    lines = ["(set-logic ALL)", "(set-option :produce-models true)"]
+    wants = []
+    for (op, args), nres in zip(cases, nat):
+        ctx, ex = S.new()
+        now, last, shift, pb = args[:4]
+        ppm = struct.unpack("<d", struct.pack("<Q", pb))[0]
+        from fractions import Fraction
+        fr = Fraction(ppm)
+        ppm_t = "(/ %s %d.0)" % (("%d.0" % fr.numerator) if fr.numerator >= 0 else "(- %d.0)" % (-fr.numerator), fr.denominator)
+        clk = mk_clock(lit(now), lit(last), lit(shift), ppm_t)
+        try:
+            if op == "ov_tfu":
+                outs = run_method(S, ctx, ex, "time_from_underlying", clk, [OB.mk_time(lit(args[4]))])
+                terms = lambda o: [OB.bits(o.value)]
+            elif op == "ov_setfreq":
+                p2 = struct.unpack("<d", struct.pack("<Q", args[4]))[0]
+                f2 = Fraction(p2)
+                p2t = "(/ %s %d.0)" % (("%d.0" % f2.numerator) if f2.numerator >= 0 else "(- %d.0)" % (-f2.numerator), f2.denominator)
+                outs = run_method(S, ctx, ex, "set_frequency", clk, [F64(p2t)])
+                terms = lambda o: [OB.bits(o.value), OB.bits(final_clock(o).fields[1]), OB.bits(final_clock(o).fields[2])]
+            else:
+                outs = run_method(S, ctx, ex, "step_clock", clk, [OB.mk_dur(lit(args[4]))])
+                terms = lambda o: [OB.bits(o.value), OB.bits(final_clock(o).fields[1]), OB.bits(final_clock(o).fields[2])]
+        except Unsupported as e:
+            raise RuntimeError("overlay validation: %s: %s" % (op, e))
+        rets = [o for o in outs if o.kind == "ret"]
+        lines.append("(push)")
+        lines += ctx.decls
+        lines += ["(assert %s)" % d for d in ctx.defs]
+        # the encoding is a relation (f64 conversion slack): ask whether the native result is *admitted* by it
+        if nres == "PANIC":
+            lines.append("(assert %s)" % OB.OR([OB.AND(o.pc) for o in outs if o.kind != "ret"]))
+        else:
+            nv = [int(x) for x in nres.split()]
+            alts = []
+            for o in rets:
+                ts = terms(o)
+                exact = (ppm == 0.0 or now == last) and op != "ov_step"
+                conds = []
+                for t, v in zip(ts, nv):
+                    if exact or op == "ov_step":
+                        # step: the encoding follows the same f64 ops only approximately (reciprocal): allow slack there
+                        conds.append("(= %s %s)" % (t, lit(v)) if exact else "(<= (abs (- %s %s)) 64)" % (t, lit(v)))
+                    else:
+                        conds.append("(<= (abs (- %s %s)) 4)" % (t, lit(v)))
+                alts.append(OB.AND(o.pc + conds))
+            lines.append("(assert %s)" % OB.OR(alts))
+        lines += ["(check-sat)", "(pop)"]
+        wants.append((op, args, nres))
+        n += 1
+    path = os.path.join(qdir, "validate_overlay.smt2")
+    with open(path, "w") as fh:
+        fh.write("\n".join(lines) + "\n")
+    import subprocess
+    p = subprocess.run(["/usr/bin/z3", "-T:600", path], stdout=subprocess.PIPE, stderr=subprocess.STDOUT, text=True)
+    if "(error" in p.stdout:
+        raise RuntimeError("overlay validation: solver error " + p.stdout[p.stdout.index("(error"):][:300])
+    verdicts = [l.strip() for l in p.stdout.splitlines() if l.strip() in ("sat", "unsat", "unknown")]
+    if len(verdicts) != len(wants):
+        raise RuntimeError("overlay validation: %d verdicts for %d cases" % (len(verdicts), len(wants)))
+    for w, v in zip(wants, verdicts):
+        if v != "sat":
+            mism.append(((w[0], tuple(w[1])), "native result %s not admitted by the encoding (%s)" % (w[2], v)))
+    return n, mism
